@@ -107,7 +107,7 @@ fn gen_case(t: &mut Tape) -> Vec<u8> {
 pub fn run(r: &mut Runner) -> &'static str {
     r.rule = "inputs: the union of all byte generators, prefixes of v1 / v2 headers, every prefix of the v2 signature followed by text or random bytes, text followed by a v2 header; exhaustively all inputs of <= 2 bytes, \
               all 3- and 4-byte inputs over {CR, LF, NUL, P, Q, SP, !, FF} and the 13 signature prefixes x the same alphabet. oracle (differential): a = auto(x), r2 = v2(x), r1 = v1(x): never both Ok; r2 Ok => a == V2(r2); \
-              r1 Ok (and r2 terminal) => a == V1(r1); a Ok only if one of them is; a incomplete <=> r2 incomplete or (r2 terminal and r1 incomplete). non-trivial = r1 or r2 is Ok or incomplete; distinct by SipHash"
+              r1 Ok (and r2 terminal) => a == V1(r1); a Ok only if one of them is; a incomplete <=> r2 incomplete or (r2 terminal and r1 incomplete). non-trivial = r1 or r2 is Ok or incomplete; distinct by SipHash Added later: the signature followed by every 1-2 byte continuation, all short v1 token sequences alone and behind four heads, chains, reused read buffer."
         .into();
     let n = r.n(400_000, 10_000_000);
     r.random("c06.differential", n, 200, &gen_case, &|x: &Vec<u8>, st: &mut Stats| crate::engine::in_arena(x, |v| judge(v, st)));
